@@ -76,6 +76,75 @@ def directed_multipv(variant):
     return v, eng.transcript()
 
 
+class TraceEngine:
+    """Adapter: a recorded h_cos trace presented like uci.Engine for the session oracle (time = scheduler step)."""
+    def __init__(self, recs):
+        self.sent, self.lines = [], []
+        self.t_close = None
+        for tag, step, vt, th, text in recs:
+            if tag == "IN":
+                if text == "<EOF>":
+                    self.t_close = step
+                else:
+                    self.sent.append((step, text, len(self.lines)))
+            elif tag == "OUT":
+                self.lines.append((step, text))
+
+
+def scheduled_one(args):
+    """The same random sessions, run in-process under the cooperative scheduler: delays are scheduler steps."""
+    import os
+    from . import c10
+    idx, seed = args
+    rnd = random.Random(seed)
+    cmds, end = sessions.gen_session(rnd, maxlen=40)
+    if rnd.random() < .7:
+        cmds = [("uci", 0), ("isready", 0)] + cmds
+    lines = []
+    ngo = 0
+    for cmd, d in cmds:
+        if "\t" in cmd or cmd.strip() == "":
+            cmd = "isready"
+        # resource heavy values are pointless in-process
+        if cmd.startswith("setoption name Hash") and cmd.split()[-1] not in ("1", "2", "4", "16"):
+            cmd = "setoption name Hash value 4"
+        if "BookFile" in cmd or "TbPath" in cmd or "SyzygyPath" in cmd or "ContemptFile" in cmd:
+            cmd = "isready"
+        lines.append(cmd)
+        if cmd.startswith("go"):
+            ngo += 1
+    script = []
+    nb = 0
+    prev_delay = 0
+    for cmd in lines:
+        w = "bestb %d" % nb if prev_delay == "best" else ("steps %d" % rnd.choice([0, 0, 1, 3, 10, 50, 400]))
+        script.append("%s | %s" % (w, cmd))
+        if cmd.startswith("go"):
+            nb += 1
+        prev_delay = rnd.choice([0, 0, 0, "best"])
+    if end == "quit":
+        script.append("steps %d | quit" % rnd.choice([0, 5, 200]))
+    sf = os.path.join(core.TMP, "c05s_%d_%d.script" % (os.getpid(), idx))
+    with open(sf, "w") as f:
+        f.write("\n".join(script) + "\n")
+    a = [B.exe("rel", "h_cos"), sf, "seed=%d" % seed, "strategy=" + rnd.choice(["random", "pct"]), "pct=2", "maxsteps=3000000"]
+    r = core.run_proc(a, env={"VERIF_NET": core.net_path("zero_1")}, timeout=240)
+    os.unlink(sf)
+    if r.timeout:
+        return dict(viol=[], incon="watchdog " + " ".join(a[2:]), script=script, args=a[2:], nlines=0)
+    recs, result = c10.parse(r.stdout)
+    eng = TraceEngine(recs)
+    rc = 0 if (result or "").startswith("RESULT ok") else None
+    v = sessions.judge(eng, rc, end)
+    if "step limit exceeded" in r.stderr:
+        return dict(viol=[], incon="step limit " + " ".join(a[2:]), script=script, args=a[2:], nlines=0)
+    if result and result.startswith("RESULT deadlock"):
+        v.append(("deadlock", result[:300]))
+    elif result is None:
+        v.append(("crash", "rc=%s %s" % (r.rc, r.stderr[-300:])))
+    return dict(viol=v, incon=None, script=script, args=a[2:], nlines=len(eng.lines))
+
+
 def run(c):
     quick = c.tier == "quick"
     n_asan = int((160 if quick else 8000) * c.scale)
@@ -110,12 +179,28 @@ def run(c):
         v, tr = directed_multipv(variant)
         for kind, det in v:
             c.violation("option-change-during-search", kind, det, detail=tr)
-    c.evaluations = len(jobs) + 4
+    # scheduled in-process sessions (delays relative to search progress are literal scheduler steps; hangs are logical verdicts)
+    B.build([("rel", "h_cos")])
+    core.ensure_nets(["zero_1"])
+    nsched = int((160 if quick else 6000) * c.scale)
+    sched_lines = 0
+    with concurrent.futures.ThreadPoolExecutor(max_workers=core.NCPU) as ex:
+        for r in ex.map(scheduled_one, [(i, c.seed * 1000000 + 700000 + i) for i in range(nsched)]):
+            if r["incon"]:
+                c.inconclusive.append(r["incon"]); continue
+            for kind, det in r["viol"]:
+                c.violation("scheduled-session-contract", kind, "%s | %s | script: %s" % (det, " ".join(r["args"]), " ;; ".join(r["script"])))
+            sched_lines += r["nlines"]
+            scripts.add(" ;; ".join(r["script"]))
+    c.extra["inconclusive_allowed"] = max(1, nsched // 50)
+    c.evaluations = len(jobs) + 4 + nsched
     c.distinct = len([s for s in scripts if "go" in s])
     c.rule = ("one case = one process session: random command sequence (<=60 commands over uci/isready/setoption with every declared option and "
               "in/out-of-range values/ucinewgame/position/go of all kinds/stop/ponderhit/unknown words/blank lines, ended by quit or EOF) with random pacing "
-              "(none, ms delays, wait-for-bestmove); 30% of sessions send commands before uci/isready; distinct_nontrivial = distinct scripts containing at least one go")
+              "(none, ms delays, wait-for-bestmove); 30% of sessions send commands before uci/isready; the same kind of session also runs in-process under the cooperative "
+              "scheduler (h_cos) with delays counted in scheduler steps and seeded schedules, where a hang is a logical deadlock verdict; distinct_nontrivial = distinct scripts containing at least one go")
     c.extra.update(commands_sent=tot["ncmd"], go_commands=tot["ngo"], output_lines_checked=tot["nlines"],
-                   flood_isready_sent=fl["sent"] + fl2["sent"], flood_lines_checked=fl["lines"] + fl2["lines"], exhaustive=False)
+                   flood_isready_sent=fl["sent"] + fl2["sent"], flood_lines_checked=fl["lines"] + fl2["lines"],
+                   scheduled_sessions=nsched, scheduled_output_lines_checked=sched_lines, exhaustive=False)
     c.assumptions += ["Hash values above 128 MB and Threads above 8 are not exercised (16 concurrent sessions on a 62 GB box)",
                       "arrival times of output lines are taken at the reading side; an answer is 'too early' only if it arrived before the releasing command was even sent"]
